@@ -217,7 +217,11 @@ pub fn run(tier: Tier) -> Report {
             let mut rep = Report::new();
             for (b, front) in chunk {
                 let _g = crate::engine::watch(|| format!("C19 row b={} front={}", b, front));
+                let before = rep.violations.len();
                 row(*b, tier, front, &input, &mut rep);
+                if rep.violations.len() == before && b % 503 == 0 {
+                    crate::engine::validate_case(&mut rep, replay, json!({"kind": "pair", "i": 1, "b": b, "front": front, "tier_thorough": tier.thorough()}));
+                }
             }
             rep
         })
